@@ -19,6 +19,22 @@ def parse_payload(hexs):
     except Exception:
         return None
 
+def parse_call_data(hexs):
+    """nested endpoint name, u32 argument count, nested arguments, u64 gas"""
+    b = bytes.fromhex(hexs)
+    try:
+        n = int.from_bytes(b[0:4], 'big'); ep = b[4:4 + n]; o = 4 + n
+        if len(ep) != n: return None
+        cnt = int.from_bytes(b[o:o + 4], 'big'); o += 4; args = []
+        for _ in range(cnt):
+            m = int.from_bytes(b[o:o + 4], 'big'); a = b[o + 4:o + 4 + m]
+            if len(a) != m: return None
+            args.append(a.hex()); o += 4 + m
+        if o + 8 != len(b): return None
+        return ep.hex(), args
+    except Exception:
+        return None
+
 REFUND = b'refund_token'.hex()
 ETA = b'time_lock_eta'.hex()
 APPR = b'operator_approvals'.hex()
@@ -114,6 +130,13 @@ def monitor(tr, which):
                 op_flight[next_id] = {'key': key, 'cancelled': False}
                 dispatch_info[next_id] = {'key': key}
                 next_id += 1
+        elif kind == 'deliver' and 'endpoint' in op and which in ('C11', 'C12') and (which == 'C12') == bool(op.get('operator')):
+            # the call that reaches the target is exactly the scheduled / approved one
+            tgt, cd, val = op['key']; pc = parse_call_data(cd)
+            if pc is not None:
+                if op['target'] != tgt or str(op['native']) != str(val) or op['endpoint'] != pc[0] or list(op['args']) != pc[1]:
+                    fail('the call dispatched to the target differs from the %s target, call data and value: endpoint %s arguments %s'
+                         % ('approved' if which == 'C12' else 'scheduled', bytes.fromhex(op['endpoint']), op['args']))
         elif kind == 'callback' and ok:
             pid = op['id']
             if op['operator']:
